@@ -136,3 +136,13 @@ Theorem C14_idempotent : forall d dummy u u' l, wf_timeline l -> 0 < d ->
   force_duration d dummy u' (force_duration d true u l) = force_duration d true u l.
 Proof. exact force_idem_filler. Qed.
 Print Assumptions C14_idempotent.
+
+(* what C14 does NOT give (session 5, computed): the filler starts at d - 1 ms whatever the kept cues are, so a kept cue
+   that starts inside the last millisecond is followed by a filler that starts BEFORE it - the result lasts d and the
+   property asks no more, but it is not start-ordered.  (Behaviour of the code as well: the model is the tied one.) *)
+Example C14_filler_may_precede_last_start :
+  let x := mkItem 1%N 9500000 9800000 [] None None false in
+  wf_timeline [x] /\
+  map (fun y => (uid y, st y, en y)) (force_duration 10000000 true 2%N [x]) =
+    [(1%N, 9500000, 9800000); (2%N, 9000000, 10000000)].
+Proof. split; [apply wft_one; reflexivity | reflexivity]. Qed.
